@@ -51,8 +51,8 @@ def gen_spec(rnd):
     if rnd.random() < .2:
         # a signal hook that vetoes (false) or fails: the stop signal is withheld, the worker lives through the
         # grace period unless it exits by itself; only signal hooks, the start/stop hooks belong to C14
-        ws[0]['hooks'] = {rnd.choice(['before_signal', 'after_signal']): [rnd.choice(['false', 'raise', 'true']),
-                                                                          rnd.random() < .3]}
+        ws[0]['hooks'] = {rnd.choice(['before_signal', 'after_signal', 'before_reap', 'after_reap']):
+                          [rnd.choice(['false', 'raise', 'true']), rnd.random() < .3]}
     steps = []
     for _ in range(rnd.randint(1, 9)):
         k = rnd.choice(KINDS)
